@@ -203,6 +203,8 @@ def run(ctx, rep):
     rep.assumptions += ["rustc MIR at mir-opt-level=0 is faithful to the built program (debug profile: overflow checks on)",
                         "third-party crates panic only where documented (frozen list in rules/panics.py)",
                         "invariant justifications in rules/panic_triage.py are argued by reading and trusted; guarded ones are re-derived from the MIR on each run"]
+    from rules import c09_durrange
+    c09_durrange.run(ctx, rep, rid="R-C04-durrange")
     entries = entry_bodies(ctx, rep, ENTRIES)
     r = rep.rule("R-C04-panic", "every panic-capable construct reachable from tokenize/parse/analyze/render/CLI entry points is "
                                 "discharged on the MIR, justified by a listed invariant, or a known finding", floor=55, floor_what="sites")
